@@ -44,30 +44,92 @@ def lock_span(g, lockname):
     return acq, rel
 
 
+def lock_balance(effects, lock):
+    """number of times `lock` is held after the given effects: acquire()/__enter__ minus release()/__exit__"""
+    held = 0
+    for e in effects:
+        if e[0] == "CALL" and len(e) > 3 and e[3][:2] == lock[:2] and e[3][2] is lock[2]:
+            if e[1].endswith(".acquire") or e[1].endswith(".__enter__"):
+                held += 1
+            elif e[1].endswith(".release") or e[1].endswith(".__exit__"):
+                held -= 1
+        elif e[0] == "ENTER" and e[1][:2] == lock[:2] and e[1][2] is lock[2]:
+            held += 1
+        elif e[0] == "EXIT" and e[1][:2] == lock[:2] and e[1][2] is lock[2]:
+            held -= 1
+    return held
+
+
+def run_tolower(repo, lower_raises=False, with_lower=True, cell=None):
+    """abstract execution of YowLayer.toLower on a layer built by the real constructor, with a lower neighbour whose send
+    is observed -> (lock held when lower.send runs (list), held at the end, sends, raised, lock value)"""
+    from ..absint import Interp, Obj, _Raise, C_NONE, flat_effects
+    base = repo.cls(LAYERS, "YowLayer")
+    held_at_send = []
+    lower = ("ext", "lower", [])
+
+    def send(itp, recv, a, k, env, d, e):
+        held_at_send.append((list(flat_effects(itp.effects)), list(a)))
+        if lower_raises:
+            raise _Raise(("ext", "LowerError", []), "the lower layer raises")
+        return C_NONE
+    it = Interp(repo, cell if cell is not None else {}, {}, hooks={"ext:lower.send": send})
+    o = Obj(base)
+    kk, init = repo.find_method(base, "__init__")
+    it.call_function(init, kk, ("obj", o), [], {}, depth=0)
+    lock = [v for k_, v in o.fields.items() if k_ == "lock"]
+    o.fields["_YowLayer__lower"] = lower if with_lower else C_NONE
+    it.effects[:] = []
+    raised = None
+    try:
+        it.method_call(("obj", o), "toLower", [("ext", "DATA", [])], {}, {"@module": base.module, "@owner": base}, 0, None)
+    except _Raise as r:
+        raised = r.text
+    effs = list(flat_effects(it.effects))
+    lk = lock[0] if lock else None
+    return ([(lock_balance(e, lk) if lk is not None else None, a) for e, a in held_at_send], lock_balance(effs, lk) if lk is not None else None, raised, lk)
+
+
 def rule_hoh(ctx):
+    """hand over hand: YowLayer.toLower, abstractly executed on a layer built by the real constructor: the lower layer's
+    send runs exactly once, with the data, while the layer's own lock is held; the lock is free again when toLower
+    returns and when the lower layer raises; without a lower layer nothing is sent; the lock is a per-instance mutex"""
     repo = ctx.repo
     fn = repo.method(LAYERS, "YowLayer", "toLower")
-    g = CFG(fn)
     w = where(LAYERS, "YowLayer.toLower", fn.lineno)
-    acq, rel = lock_span(g, "lock")
-    sends = [n for n in g.live if any(isinstance(x, ast.Call) and isinstance(x.func, ast.Attribute) and x.func.attr == "send" and "lower" in unparse(x.func.value) for e in node_exprs(n) for x in walk_no_nested(e))]
-    if len(acq) != 1 or len(sends) != 1 or not rel:
-        ctx.violate("C11.hoh", w, fn, "toLower must take the layer's lock, call the lower layer's send once and release (found %d acquire, %d send, %d release)" % (len(acq), len(sends), len(rel)))
+    from ..absint import NeedAtom
+    try:
+        ok_s, end_s, r_s, lk = run_tolower(repo)
+        ok_f, end_f, r_f, _l = run_tolower(repo, lower_raises=True)
+        ok_n, end_n, r_n, _l2 = run_tolower(repo, with_lower=False)
+    except NeedAtom as x:
+        if x.atom[0] == "F" and x.atom[1].startswith("trylock("):
+            # the lock is only *tried*: in the path class where the attempt fails the send runs without it
+            try:
+                ok_s, end_s, r_s, lk = run_tolower(repo, cell={x.atom: False})
+            except NeedAtom:
+                ok_s, lk = None, None
+            if ok_s is not None:
+                ctx.check("C11.hoh", bool(ok_s) and all(h[0] == 1 for h in ok_s), w, "lower.send(data) inside the critical section of self.lock",
+                          "the lower layer's send runs outside the critical section of the layer's lock (two senders can interleave their frames): the lock is only tried (%s), and when another sender holds it the send goes ahead without it" % x.atom[1][8:-1],
+                          "lower.send(data) inside the critical section")
+                return
+        ctx.undecided("C11.hoh", w, fn, "toLower depends on a test the interpreter cannot decide: %s" % (x.atom,))
         return
-    a, s = acq[0], sends[0]
-    inside = g.dominates(a, s) and g.path(a, lambda x: x is s, avoid=rel) is not None and g.path(g.entry, lambda x: x is s, avoid=[a]) is None
-    # no release between acquire and the send on any path
-    early = None
-    for r in rel:
-        p = g.path(a, lambda x, r=r: x is r, avoid=[s])
-        if p is not None and g.path(r, lambda x: x is s) is not None:
-            early = p
-    ctx.check("C11.hoh", inside and early is None, w, s.stmt, "the lower layer's send runs outside the critical section of the layer's lock (two senders can interleave their frames)%s" % (": " + fmt_path(early) if early else ""),
-              "lower.send(data) inside acquire..release of self.lock")
+    if lk is None or lk[0] != "ext":
+        ctx.undecided("C11.hoh", w, fn, "the layer's lock (self.lock bound by the constructor) was not identified")
+        return
+    inside = len(ok_s) == 1 and ok_s[0][0] == 1 and ok_s[0][1] == [("ext", "DATA", [])] and r_s is None
+    ctx.check("C11.hoh", inside and not ok_n and r_n is None, w, "lower.send(data) inside the critical section of self.lock",
+              "the lower layer's send runs outside the critical section of the layer's lock (two senders can interleave their frames), or not exactly once with the data: lock held %s time(s) at %d send(s); without a lower layer %d send(s)" % ([x[0] for x in ok_s], len(ok_s), len(ok_n)),
+              "lower.send(data) once, inside the critical section of self.lock")
+    ctx.check("C11.hoh", end_s == 0 and end_f == 0 and end_n == 0 and r_f is not None, w, "lock free again on return and when the lower layer raises",
+              "toLower must take the layer's lock, call the lower layer's send once and release: afterwards the lock is held %s time(s) (normal), %s (lower layer raised%s), %s (no lower layer)" % (end_s, end_f, "" if r_f else " - and the error was swallowed", end_n),
+              "released on every exit")
     # the lock is a real per-instance mutex
-    init = repo.method(LAYERS, "YowLayer", "__init__")
-    ok = any(isinstance(n, ast.Assign) and unparse(n.targets[0]) == "self.lock" and unparse(n.value) in ("threading.Lock()", "threading.RLock()", "Lock()") for n in ast.walk(init))
-    ctx.check("C11.hoh", ok, where(LAYERS, "YowLayer.__init__", init.lineno), "self.lock = threading.Lock()", "every layer instance needs its own mutex", "per-instance mutex")
+    _a, _b, _c, lk2 = run_tolower(repo)
+    kind = lk[1].split(".")[-1]
+    ctx.check("C11.hoh", lk2 is not None and lk2[2] is not lk[2] and kind in ("Lock()", "RLock()"), where(LAYERS, "YowLayer.__init__", None), "self.lock = threading.Lock()", "every layer instance needs its own mutex (found %s%s)" % (lk[1], ", shared between instances" if lk2 is not None and lk2[2] is lk[2] else ""), "per-instance mutex")
 
 
 def rule_only(ctx, layers_full):
@@ -332,7 +394,7 @@ def rule_threads(ctx):
 
 
 def run(ctx):
-    ctx.rule("C11.hoh", "lower send inside the layer lock's critical section", floor=2)
+    ctx.rule("C11.hoh", "toLower abstractly executed: lower send inside the critical section of a per-instance lock, released on every exit", floor=3)
     ctx.rule("C11.only", "toLower is the only way down; not overridden", floor=30)
     ctx.rule("C11.adj", "transport layers adjacent in all compositions", floor=1)
     ctx.rule("C11.enc", "single synchronous cipher path", floor=3)
